@@ -1,9 +1,68 @@
 package sym
 
-// Contracts: callee summaries that may replace a function body. Each summary
-// is the function's contract (DESIGN A.3); the contract itself is an
-// obligation of C07's check, proved against the real body.
+import (
+	"math/big"
 
-func (x *Exec) registerContracts() {}
+	"golang.org/x/tools/go/ssa"
 
-var DefaultContracts = []string{}
+	"verif/engine/term"
+)
+
+// Contracts: callee summaries that may replace a function body (DESIGN 2.4,
+// A.3). A summary is exact (it determines the outputs uniquely), its
+// precondition is asserted at every call site (obligation "C07.pre.<fn>"), and
+// the contract itself is proved against the real body by C07's check.
+
+var DefaultContracts = []string{"decDigits64", "magic.div", "div10W_g"}
+
+var contractTable = map[string]intrinsicFn{}
+
+func (x *Exec) registerContracts() {
+	d := DecimalPath + "."
+	contractTable[d+"decDigits64"] = func(p *Path, fn *ssa.Function, a []Value) (Value, *Panic) {
+		// n such that 10^(n-1) <= x < 10^n, 0 for x == 0
+		v := T(a[0])
+		r := p.C.Int(20)
+		for k := 19; k >= 0; k-- {
+			r = p.C.Ite(p.C.Lt(v, p.C.Const(term.Pow10(k))), p.C.Int(int64(k)), r)
+		}
+		return r, nil
+	}
+	contractTable["("+d+"magic).div"] = func(p *Path, fn *ssa.Function, a []Value) (Value, *Panic) {
+		m := a[0].(StructV)
+		dv := T(m.F[0])
+		if !dv.IsConst() {
+			return nil, nil // not applicable: fall back to the body
+		}
+		n := T(a[1])
+		p.assert("C07.pre.magic.div", p.C.Lt(n, p.C.Const(bigD)), "magic.div operand below the base")
+		return TupleV{p.C.DivC(n, dv.C), p.C.ModC(n, dv.C)}, nil
+	}
+	contractTable[d+"div10W_g"] = func(p *Path, fn *ssa.Function, a []Value) (Value, *Panic) {
+		n1, n0 := T(a[0]), T(a[1])
+		p.assert("C07.pre.div10W", p.C.Lt(n1, p.C.Const(bigD)), "div10W high word below the base")
+		n := p.C.Add(p.C.MulC(n1, two64), n0)
+		return TupleV{p.C.DivC(n, bigD), p.C.ModC(n, bigD)}, nil
+	}
+	_ = big.NewInt
+}
+
+// contract returns the enabled summary for fn, if any.
+func (x *Exec) contract(fn *ssa.Function) (intrinsicFn, string) {
+	if len(x.Contracts) == 0 {
+		return nil, ""
+	}
+	name := fn.String()
+	h, ok := contractTable[name]
+	if !ok {
+		return nil, ""
+	}
+	short := name[len(DecimalPath)+1:]
+	if name[0] == '(' {
+		short = "magic.div"
+	}
+	if !x.Contracts[short] {
+		return nil, ""
+	}
+	return h, short
+}
